@@ -1361,7 +1361,7 @@ def fam_cmathx(vt, cfg):
         i.judge = judge
         if env_ok:
             i.env_ok = env_ok
-        i.budget_s = 4
+        i.budget_s = 2 if TIER == "quick" else 8
         I.append(i)
     add(Inst("fmax", VV, "V", "avel::fmax(a, b)", lanewise2(lambda c, x, y: T.op("spec:c_fmax", eb, x, y))),
         env_ok=_no_snan_lanes(vt, ("a", "b")))
